@@ -78,6 +78,18 @@ impl Prop for C01 {
             };
             scn.chain.push(rich_block(coin, i as u64, n_tx, rng, if n_tx > 200 { &small } else { &sh }, arbitrary));
         }
+        // a segwit transaction with a witness item of 1..4 MB (consensus-legal, e.g. large tapscript witnesses)
+        if item % 97 == 5 || (tier == Tier::Thorough && item % 29 == 3) {
+            if let Some(b) = scn.chain.last_mut() {
+                if let Some(t) = b.txs.last_mut() {
+                    t.segwit = true;
+                    let n = *rng.pick(&[1_000_001usize, 1_500_000, 3_900_000]);
+                    let fill = rng.next() as u8;
+                    t.inputs[0].witness.push(Bytes(vec![fill; n]));
+                    h.stats.probe("witness_item_over_1mb");
+                }
+            }
+        }
         // wider-than-necessary CompactSize encodings (kept verbatim by VarUint.buf, txid over the stored bytes)
         if rng.chance(1, 8) {
             scn.family = "noncanonical-compactsize".into();
